@@ -7,6 +7,7 @@ loop behind getAttributesMapFromFile), resolveVariables (:137-182, any mark char
 FileTools path helpers (src/Bpp/Io/FileTools.cpp:41-101) and of
 IntervalConstraint::readDescription (src/Bpp/Numeric/Constraints.h:250-269).
 After the repairs
+  fix: AttributesTools::removeComments never returned for marks that start with one another
   fix: getAttributesMap read past the last line when it ends with a continuation mark
   fix: getAttributesMap read arg[size() - 1] of a joined line that became empty
   fix: FileTools::getParent of a path without separator erased from begin() - 1
@@ -29,8 +30,16 @@ def rmCommentsLoop (b e : Str) : Nat → Str → Nat → R Str
         let r' ← eraseRange r (toPtrdiff first) (toPtrdiff last')  -- :205
         rmCommentsLoop b e fuel r' last'
 
-/-- AttributesTools::removeComments(s, begin, end) (private; called with the three pairs below) -/
-def removeComments (s b e : Str) : R Str := rmCommentsLoop b e (s.length + 2) s 0
+/-- the code as found: no test of the marks -/
+def removeCommentsOld (s b e : Str) : R Str := rmCommentsLoop b e (s.length + 2) s 0
+
+/-- AttributesTools::removeComments(s, begin, end) (private; called with the three pairs below).
+After the repair "fix: AttributesTools::removeComments never returned for marks that start with one
+another": `begin.compare(0, end.size(), end) == 0` = `end` is a prefix of `begin`, and conversely
+(an empty mark is a prefix of every mark) -/
+def removeComments (s b e : Str) : R Str :=
+  if isPrefix e b || isPrefix b e then .error .bpp
+  else rmCommentsLoop b e (s.length + 2) s 0
 
 /-- the cleaning of one line (:59-64) -/
 def cleanLine (line : Str) : R Str := do
